@@ -259,11 +259,13 @@ class CodeBase:
             base's listed directories and does not match any exclude
             pattern(s).
         """
-        path = Path(path).resolve()
-
-        # Files that don't exist aren't part of the code base.
-        if not path.exists():
+        # Files that don't exist aren't part of the code base. Test the path
+        # as it is spelled: resolve() cancels a ".." lexically when the
+        # component before it does not exist or is not a directory.
+        if not os.path.exists(path):
             return False
+
+        path = Path(path).resolve()
 
         # Directories cannot be source files.
         if path.is_dir():
